@@ -43,6 +43,11 @@ def guarded(out, key, fn):
 
 def run_main(mod, argv, files=()):
     """Runs a CLI main in-process; returns stdout + contents of the named output files."""
+    for f in files:  # never read a file left behind by an earlier item
+        if os.path.isdir(f):
+            shutil.rmtree(f, ignore_errors=True)
+        elif os.path.exists(f):
+            os.remove(f)
     buf = io.StringIO()
     old = sys.argv
     sys.argv = [mod.__name__] + argv
@@ -152,14 +157,67 @@ def three_d(out, names, tmp, only=None):
         guarded(out, key, lambda: run_main(motif_extractor, ["--dbn", os.path.join(TESTS, dbn)]))
 
 
+def mapping_conflicts(out, tmp, only=None):
+    """External pair lists in which a nucleotide has several canonical partners of the same score class (ties in conflict resolution),
+    through Mapping2D3D and through the adapter CLI with an FR3D listing."""
+    import itertools
+
+    from rnapolis import adapter
+    from rnapolis.common import BasePair, LeontisWesthof, Residue, Saenger
+    from rnapolis.parser import read_3d_structure
+    from rnapolis.tertiary import Mapping2D3D
+
+    path = os.path.join(TESTS, "1A1T_1_B.cif")
+    with open(path) as f:
+        s = read_3d_structure(f, 1)
+    nts = [r for r in s.residues if r.is_nucleotide]
+    idx = [(0, 19), (0, 18), (1, 18), (1, 19), (2, 17), (0, 17), (2, 19)]
+    for r in (2, 3, 4):
+        for combo in itertools.combinations(idx, r):
+            key = "3d:mapping:" + "-".join("%d.%d" % c for c in combo)
+            if only and not key.startswith(only):
+                continue
+
+            def fn(combo=combo):
+                bps = [BasePair(Residue(nts[i].label, nts[i].auth), Residue(nts[j].label, nts[j].auth), LeontisWesthof.cWW, None) for i, j in combo]
+                m = Mapping2D3D(s, bps, [], False)
+                return [str(m.bpseq), m.dot_bracket, m.extended_dot_bracket, m.all_dot_brackets]
+
+            guarded(out, key + ":mapping", fn)
+    key = "3d:adapter-conflicts"
+    if not only or key.startswith(only):
+        def unit(r):
+            return "1A1T|1|%s|%s|%d" % (r.chain, r.name, r.number)
+
+        lines = []
+        for i, j in idx:
+            lines.append("%s\tcWW\t%s" % (unit(nts[i]), unit(nts[j])))
+            lines.append("%s\tncWW\t%s" % (unit(nts[j]), unit(nts[i])))
+        ext = os.path.join(tmp, "conflicts-fr3d.txt")
+        with open(ext, "w") as f:
+            f.write("\n".join(lines) + "\n")
+        guarded(out, key + ":adapter", lambda: run_main(adapter, [path, "--external", ext, "--tool", "fr3d", "-a", "-c", tmp + "/y.csv", "-j", tmp + "/y.json"], [tmp + "/y.csv", tmp + "/y.json"]))
+
+
 def main():
     tier = sys.argv[1] if len(sys.argv) > 1 else "quick"
     only = sys.argv[2] if len(sys.argv) > 2 else None
+    if only in ("", "-"):
+        only = None
+    reverse = len(sys.argv) > 3 and sys.argv[3] == "reverse"
     out = {}
     tmp = tempfile.mkdtemp(prefix="verif-battery-")
     try:
-        two_d(out, only)
-        three_d(out, SMALL + (MORE if tier == "thorough" else []), tmp, only)
+        names = SMALL + (MORE if tier == "thorough" else [])
+        if reverse:
+            # same inputs, processed in the opposite order: an output must not depend on what the interpreter processed before
+            three_d(out, names[::-1], tmp, only)
+            mapping_conflicts(out, tmp, only)
+            two_d(out, only)
+        else:
+            two_d(out, only)
+            mapping_conflicts(out, tmp, only)
+            three_d(out, names, tmp, only)
     finally:
         shutil.rmtree(tmp, ignore_errors=True)
     json.dump(out, sys.stdout, sort_keys=True)
